@@ -371,6 +371,49 @@ class Facts:
                 self.aliases[a['path']] = a
             for k in d['consts']:
                 self.consts[k['def']] = k
+        self._canonical_locals()
+
+    def _canonical_locals(self):
+        """renamed local variables are read under the names the rules know (allow/locals.json): only when the function binds the same
+        number of locals with the same types in the same order"""
+        fp = os.path.join(VERIF, 'allow', 'locals.json')
+        if not os.path.exists(fp):
+            return
+        global _LOCALS_BASE
+        try:
+            base = _LOCALS_BASE
+        except NameError:
+            try:
+                base = _LOCALS_BASE = json.load(open(fp))['locals']
+            except (ValueError, KeyError):
+                return
+        self.local_renames = getattr(self, 'local_renames', [])
+        for d, b in self.bodies.items():
+            want = base.get(d)
+            if not want:
+                continue
+            binds = []
+            for root in list(b.get('params', [])) + [b['body']]:
+                for n in walk(root):
+                    if n.get('k') == 'p_bind':
+                        binds.append(n)
+            if len(binds) != len(want):
+                continue
+            if all(n['name'].split('#')[0] == w[0] for n, w in zip(binds, want)):
+                continue
+            if any((n.get('t') or '') != w[1] for n, w in zip(binds, want)):
+                continue
+            mapping = {}
+            for n, w in zip(binds, want):
+                mapping[n['name']] = w[0] + '#' + n['name'].split('#', 1)[1] if '#' in n['name'] else w[0]
+            changed = sorted({k.split('#')[0] + '->' + v.split('#')[0] for k, v in mapping.items() if k.split('#')[0] != v.split('#')[0]})
+            for root in list(b.get('params', [])) + [b['body']]:
+                for n in walk(root):
+                    if n.get('k') == 'p_bind' and n['name'] in mapping:
+                        n['name'] = mapping[n['name']]
+                    elif n.get('k') == 'path' and n.get('res') == 'Local' and n.get('path') in mapping:
+                        n['path'] = mapping[n['path']]
+            self.local_renames.append((d, changed))
 
     def _detect_renames(self):
         """[(old def path, new def path)]: a private function that was renamed or moved keeps its rules (allow/anchors.json)"""
@@ -646,6 +689,10 @@ def run_property(prop, tier, rule_fn, configs_quick=('default',), configs_thorou
             facts = Facts(cfg)
             for old, new in facts.renames:
                 note = f'anchor `{old}` is gone; the only new function with its signature, `{new}`, is analysed in its place (allow/anchors.json).'
+                if note not in rep.notes:
+                    rep.notes.append(note)
+            for d, changed in getattr(facts, 'local_renames', []):
+                note = f'locals of `{d}` renamed ({", ".join(changed[:6])}); read under the old names (allow/locals.json).'
                 if note not in rep.notes:
                     rep.notes.append(note)
             rep.configs.append(cfg)
